@@ -255,6 +255,19 @@ def gen_bcast(rng, tier):
 
 
 def gen_table(rng, tier):
+    # scripted: the table forms that go through a column class's own operator (a date column + days: int scalar, bool scalar, int
+    # column, with None on either side), direct and with the table on the right, next to numeric and str columns
+    for cols in ([{"t": "date", "x": [0, 1]}], [{"t": "int", "x": [1, 2]}, {"t": "date", "x": [1, None]}],
+                 [{"t": "date", "x": [None, 2]}, {"t": "date", "x": [0, 1]}, {"t": "float", "x": [0, 1]}]):
+        for op in ("add", "sub", "mul"):
+            for si in (0, 1, 2):
+                for st in ("int", "td"):
+                    base = {"fam": "table", "op": op, "cols": cols, "form": "scalar", "st": st, "s": si}
+                    yield dict(base)
+                    yield dict(base, refl=True)
+            for t2 in ("int", "td", "date"):
+                yield {"fam": "table", "op": op, "cols": cols, "form": "table",
+                       "cols2": [{"t": t2, "x": [1, None] if j % 2 else [2, 1]} for j in range(len(cols))]}
     count = 1500 if tier == "quick" else 20000
     for i in range(count):
         op = rng.choice(list(BINOPS))
